@@ -30,22 +30,22 @@ KNOWN = os.path.join(VERIF, "known_findings.txt")
 # per check: list of (flavour, exact, runs_quick, runs_thorough)
 CHECKS = {
     "C03": {"level": "exploration",
-            "flavours": [("plain", True, 24000, 400000), ("asan", True, 0, 40000)]},
+            "flavours": [("plain", True, 60000, 1200000), ("asan", True, 0, 100000)]},
     "C08": {"level": "exploration",
-            "flavours": [("plain", False, 16000, 300000), ("plain", True, 8000, 100000), ("asan", False, 0, 40000)]},
+            "flavours": [("plain", False, 160000, 2000000), ("plain", True, 30000, 400000), ("asan", False, 0, 200000)]},
     "C09": {"level": "exploration",
-            "flavours": [("asan", False, 6000, 120000), ("asan", True, 0, 30000), ("plain", False, 6000, 200000),
-                         ("vg", False, 0, 300)]},
+            "flavours": [("asan", False, 60000, 1000000), ("plain", False, 100000, 2000000), ("asan", True, 0, 100000),
+                         ("vg", False, 0, 400)]},
     "C10": {"level": "fault_enumeration",
-            "flavours": [("plain", False, 10000, 200000), ("plain", True, 3000, 60000), ("asan", False, 0, 30000),
-                         ("selfchk", False, 0, 60000)]},
+            "flavours": [("plain", False, 100000, 2000000), ("plain", True, 15000, 300000), ("asan", False, 0, 200000),
+                         ("selfchk", False, 0, 300000)]},
     "C14": {"level": "fault_enumeration",
-            "flavours": [("plain", False, 10000, 200000), ("plain", True, 3000, 60000), ("asan", False, 0, 30000)]},
+            "flavours": [("plain", False, 100000, 2000000), ("plain", True, 15000, 300000), ("asan", False, 0, 200000)]},
     "C18": {"level": "exploration",
-            "flavours": [("tsan", False, 2400, 60000), ("plain", False, 6000, 300000), ("asan", False, 0, 40000)]},
+            "flavours": [("tsan", False, 40000, 800000), ("plain", False, 100000, 2000000), ("asan", False, 0, 300000)]},
 }
-QUICK_WALL_CAP = 150.0      # seconds of run time per flavour before no new chunk is handed out
-THOROUGH_WALL_CAP = 1500.0
+QUICK_WALL_CAP = 60.0       # seconds of run time per flavour before no new chunk is handed out
+THOROUGH_WALL_CAP = 600.0
 MAX_CLASSES = 3             # distinct violation classes minimised and reported per check
 MINIMISE_BUDGET = 260       # replays per violation
 WORKERS = min(16, os.cpu_count() or 4)
@@ -342,7 +342,7 @@ def do_check(check, tier, seed):
         key = B.flavour_key(flavour, exact)
         binary = bins[key]
         vg = flavour == "vg"
-        chunk = 20 if vg else (150 if flavour in ("asan", "tsan") else 400)
+        chunk = 20 if vg else (250 if flavour in ("asan", "tsan") else 1000)
         chunks = [(a, min(a + chunk, nruns)) for a in range(0, nruns, chunk)]
         t0 = time.time()
         done_runs = 0
